@@ -328,7 +328,7 @@ def run_model_transitions(trans):
     w = CoqWriter(); rows = []
     for i, (B, c, ok, A) in enumerate(trans):
         rows.append('(%d%%N, (%s, %s, %s, %s))' % (i, w.state(B), coq_command(c), 'true' if ok else 'false', w.state(A)))
-    src = ['From Coq Require Import String List NArith Bool.', 'From NB Require Import Base.Json Sys.GitCfg Gen.GitCfg.',
+    src = ['From Coq Require Import String List NArith Bool.', 'From NB Require Import Base.Json Sys.GitCfg.', 'Require Import GitCfgNow.',
            'Import ListNotations.', 'Local Open Scope string_scope.'] + w.lines
     chunks = [rows[i:i + 400] for i in range(0, len(rows), 400)]
     for j, ch in enumerate(chunks):
@@ -339,13 +339,71 @@ def run_model_transitions(trans):
     src.append('Eval vm_compute in bad.')
     d = tempfile.mkdtemp(prefix='nbv_c18coq_')
     try:
+        # the programs are translated afresh from $NBDIME_REPO into the scratch directory, so that the comparison never
+        # runs against a Gen/GitCfg.vo that a concurrent build regenerated from another tree
+        g = os.path.join(d, 'GitCfgNow.v')
+        p = subprocess.run([os.path.join(core.VERIF, 'tools', 'gen', 'gen_gitcfg.py'), '--out', g], capture_output=True, text=True,
+                           env=dict(os.environ, NBDIME_REPO=core.REPO))
+        if p.returncode != 0:
+            return None, 'translator: ' + (p.stderr + p.stdout)[-800:]
+        p = subprocess.run(['timeout', '300', 'coqc', '-Q', core.COQ, 'NB', '-R', d, '', g], capture_output=True, text=True, cwd=d)
+        if p.returncode != 0:
+            return None, 'translated programs do not compile: ' + (p.stderr + p.stdout)[-800:]
         f = os.path.join(d, 'Cases.v'); open(f, 'w').write('\n'.join(src) + '\n')
-        p = subprocess.run(['timeout', '900', 'coqc', '-Q', core.COQ, 'NB', f], capture_output=True, text=True, cwd=d)
+        p = subprocess.run(['timeout', '900', 'coqc', '-Q', core.COQ, 'NB', '-R', d, '', f], capture_output=True, text=True, cwd=d)
         if p.returncode != 0:
             return None, (p.stderr + p.stdout)[-1500:]
         m = re.search(r'=\s*(\[.*?\])\s*:\s*list N', p.stdout, re.S)
         if not m: return None, 'unparsable coqc output: ' + p.stdout[-500:]
         return set(int(x) for x in re.findall(r'(\d+)%N', m.group(1))), None
+    finally:
+        shutil.rmtree(d, ignore_errors=True)
+
+OWN_CHAIN = ['Base/Json.v', 'Sys/GitCfg.v', 'Gen/GitCfg.v', 'Sys/GitCfgProofs.v', 'Props/C18.v']
+
+def build():
+    """core.build(); when the shared build is broken by files that C18 does not depend on (another property's translator
+    failing closed, a syntax error that stops coqdep), build C18's own closure directly, under the same lock."""
+    b = core.build()
+    if b.ok and not b.gen_error:
+        return b
+    import fcntl
+    lock = open(os.path.join(core.VERIF, '.coq-build.lock'), 'w'); fcntl.flock(lock, fcntl.LOCK_EX)
+    try:
+        p = subprocess.run([os.path.join(core.VERIF, 'tools', 'gen', 'gen_gitcfg.py')], capture_output=True, text=True,
+                           env=dict(os.environ, NBDIME_REPO=core.REPO))
+        b.gen_error = (p.stderr + p.stdout)[-3000:] if p.returncode != 0 else None
+        stale = False
+        for f in OWN_CHAIN:
+            v = os.path.join(core.COQ, f); vo = v[:-2] + '.vo'
+            if not os.path.exists(v):
+                b.ok = False; b.failed_file = f; b.log = 'missing ' + f; return b
+            if stale or not os.path.exists(vo) or os.path.getmtime(vo) < os.path.getmtime(v):
+                q = subprocess.run(['timeout', '900', 'coqc', '-Q', '.', 'NB', '-w', '-notation-overridden,-deprecated-hint-without-locality,-deprecated-instance-without-locality', f],
+                                   capture_output=True, text=True, cwd=core.COQ)
+                if q.returncode != 0:
+                    b.ok = False; b.failed_file = f; b.log = (q.stdout + q.stderr)[-3000:]
+                    for g in OWN_CHAIN[OWN_CHAIN.index(f):]:        # nothing downstream may survive as an out-of-date .vo
+                        try: os.unlink(os.path.join(core.COQ, g[:-2] + '.vo'))
+                        except OSError: pass
+                    return b
+                stale = True
+        b.ok = True
+        return b
+    finally:
+        fcntl.flock(lock, fcntl.LOCK_UN); lock.close()
+
+def gen_in_tree_is_current():
+    d = tempfile.mkdtemp(prefix='nbv_c18gen_')
+    try:
+        g = os.path.join(d, 'G.v')
+        p = subprocess.run([os.path.join(core.VERIF, 'tools', 'gen', 'gen_gitcfg.py'), '--out', g], capture_output=True, text=True,
+                           env=dict(os.environ, NBDIME_REPO=core.REPO))
+        if p.returncode != 0: return True      # the translator failing closed is reported by the build
+        try:
+            return open(g).read() == open(os.path.join(core.COQ, 'Gen', 'GitCfg.v')).read()
+        except OSError:
+            return False
     finally:
         shutil.rmtree(d, ignore_errors=True)
 
@@ -401,7 +459,14 @@ def public_case(case, step):
 # ------------------------------------------------------------------ the check
 def run(tier, seed):
     chk = core.Check(PROP, tier, seed)
-    b = core.build()
+    b = build()
+    for attempt in range(2):
+        # another check running with a different $NBDIME_REPO may have regenerated Gen/GitCfg.v in between
+        if gen_in_tree_is_current(): break
+        b = build()
+    else:
+        if not gen_in_tree_is_current():
+            chk.broken_obligation('gen-race', 'coq/Gen/GitCfg.v does not correspond to %s (concurrent build from another tree?)' % core.REPO)
     proofs_ok = chk.proof_obligations('Props/C18.v', b)
     if tier == 'thorough' and proofs_ok:
         p = subprocess.run(['timeout', '900', 'coqchk', '-silent', '-o', '-Q', core.COQ, 'NB', 'NB.Props.C18'], capture_output=True, text=True, cwd=core.COQ)
